@@ -17,6 +17,7 @@ pub fn run(entry: &str, v: &Value) -> Option<Result<String, String>> {
         "fleet_wide_broadcast" => fleet_wide_broadcast(v),
         "peer_broadcast_payloads" => peer_broadcast_payloads(),
         "registry_message_bodies" => registry_message_bodies(),
+        "ws_oversized_notify_keeps_connection" => ws_oversized_notify::run(),
         _ => return None,
     })
 }
@@ -730,4 +731,157 @@ fn registry_message_bodies() -> Result<String, String> {
         }
     }
     Ok(format!("{n} body/format/mount combinations read, wrote and called as a JSON document would"))
+}
+
+// ---------------------------------------------------------------------------------------------
+// C17: an oversized notification (handler-pushed or broadcast) is dropped and reported, the reply
+// queued behind it still arrives and the connection stays usable; notifications at the limit are
+// delivered unchanged. One scenario over an in-memory duplex stream, limit 4096. A failed
+// expectation panics; the parent classifies the panic as the violation.
+mod ws_oversized_notify {
+    // Cargo features needed: websocket
+    //! C17 demo: a notification one byte over the assumed peer frame limit
+    //! (pushed by a handler, or broadcast through the peer registry) is dropped
+    //! and reported, nothing over the limit is sent, a notification exactly at the
+    //! limit is delivered unchanged, and the connection stays usable: the response
+    //! queued right behind the dropped notification still arrives, and so does
+    //! the next exchange.
+
+    use std::sync::Arc;
+    use std::sync::atomic::{AtomicUsize, Ordering};
+    use std::time::Duration;
+
+    use futures_util::{SinkExt, StreamExt};
+    use repe::server::Router;
+    use repe::tokio_tungstenite::WebSocketStream;
+    use repe::tokio_tungstenite::tungstenite::Message as WsMessage;
+    use repe::tokio_tungstenite::tungstenite::protocol::Role;
+    use repe::{
+        ConnectionError, ErrorCode, Message, NotifyBody, PeerRegistry, QueryFormat, WebSocketLimits,
+        WebSocketServer,
+    };
+    use serde_json::{Value, json};
+
+    const HEADER: usize = 48;
+    const NOTIFY_PATH: &str = "/progress";
+    const LIMIT: usize = 4096;
+
+    type Raw = WebSocketStream<tokio::io::DuplexStream>;
+
+    fn request(id: u64, total: usize) -> Vec<u8> {
+        Message::builder()
+            .id(id)
+            .query_format(QueryFormat::JsonPointer)
+            .query_str("/push")
+            .body_json(&json!({ "total": total }))
+            .expect("body")
+            .build()
+            .into_wire_bytes()
+    }
+
+    async fn next_binary(raw: &mut Raw) -> Message {
+        let frame = tokio::time::timeout(Duration::from_secs(60), raw.next())
+            .await
+            .expect("a frame must arrive")
+            .expect("the connection must stay open")
+            .expect("frame is not a transport error");
+        match frame {
+            WsMessage::Binary(bytes) => {
+                assert!(
+                    bytes.len() <= LIMIT,
+                    "nothing over the limit may be sent, saw {} bytes",
+                    bytes.len()
+                );
+                let msg = Message::from_slice_exact(&bytes).expect("decode");
+                assert_eq!(msg.serialized_len(), bytes.len());
+                msg
+            }
+            other => panic!("expected a binary REPE frame, got {other:?}"),
+        }
+    }
+
+    pub async fn scenario() {
+        // `/push {total}` pushes a `/progress` notify whose framed size is exactly
+        // `total` to the calling peer, then answers normally.
+        let router = Router::new().with_json_ctx("/push", |ctx, params: Value| {
+            let total = params["total"].as_u64().unwrap() as usize;
+            let body = "n".repeat(total - HEADER - NOTIFY_PATH.len());
+            ctx.peer()
+                .expect("websocket dispatch carries the peer")
+                .send_notify(NOTIFY_PATH, NotifyBody::Utf8(body))
+                .expect("queued");
+            Ok(json!({ "pushed": total }))
+        });
+
+        let reported = Arc::new(AtomicUsize::new(0));
+        let reported_h = Arc::clone(&reported);
+        let peers = PeerRegistry::new();
+        let limits = WebSocketLimits::default().with_assumed_peer_frame_limit(Some(LIMIT));
+        let shared = WebSocketServer::new(router)
+            .with_limits(limits)
+            .with_peer_registry(peers.clone())
+            .on_error(move |err| {
+                if let ConnectionError::OutboundTooLarge { size, limit, .. } = err {
+                    assert!(size > limit);
+                    reported_h.fetch_add(1, Ordering::SeqCst);
+                }
+            })
+            .into_shared();
+
+        let (server_io, client_io) = tokio::io::duplex(256 * 1024);
+        let ws = shared.adopt_upgraded(server_io).await;
+        tokio::spawn(async move { shared.serve_connection(ws).await });
+        let mut raw: Raw = WebSocketStream::from_raw_socket(client_io, Role::Client, None).await;
+
+        // Exactly at the limit: the notify is delivered unchanged, then the reply.
+        raw.send(WsMessage::Binary(request(1, LIMIT))).await.unwrap();
+        let notify = next_binary(&mut raw).await;
+        assert_eq!(notify.header.notify, 1);
+        assert_eq!(notify.query_str().unwrap(), NOTIFY_PATH);
+        assert_eq!(notify.serialized_len(), LIMIT);
+        assert!(notify.body.iter().all(|b| *b == b'n'));
+        let reply = next_binary(&mut raw).await;
+        assert_eq!((reply.header.id, reply.header.ec), (1, ErrorCode::Ok as u32));
+        assert_eq!(reported.load(Ordering::SeqCst), 0);
+
+        // One byte, two bytes, and far over: the notify is dropped and reported;
+        // the reply queued right behind it is the next thing on the wire.
+        for (k, total) in [LIMIT + 1, LIMIT + 2, 3 * LIMIT].into_iter().enumerate() {
+            let id = 10 + k as u64;
+            raw.send(WsMessage::Binary(request(id, total))).await.unwrap();
+            let reply = next_binary(&mut raw).await;
+            assert_eq!(reply.header.notify, 0, "the oversized notify must not be sent");
+            assert_eq!((reply.header.id, reply.header.ec), (id, ErrorCode::Ok as u32));
+            let body: Value = reply.json_body().unwrap();
+            assert_eq!(body["pushed"], total);
+            assert_eq!(reported.load(Ordering::SeqCst), k + 1, "dropped notify is reported");
+        }
+
+        // Same rule for a registry broadcast: oversized is dropped, a small one
+        // after it still arrives on the same connection.
+        let big = "b".repeat(LIMIT + 1 - HEADER - "/bcast".len());
+        let sent = peers.broadcast_notify_utf8("/bcast", &big);
+        assert_eq!(sent.len(), 1);
+        assert!(sent.values().all(Result::is_ok));
+        let sent = peers.broadcast_notify_utf8("/bcast", "small");
+        assert!(sent.values().all(Result::is_ok), "peer still registered: {sent:?}");
+        let small = next_binary(&mut raw).await;
+        assert_eq!(small.header.notify, 1);
+        assert_eq!(small.query_str().unwrap(), "/bcast");
+        assert_eq!(small.body, b"small");
+        assert_eq!(reported.load(Ordering::SeqCst), 4);
+
+        // And an ordinary exchange still works.
+        raw.send(WsMessage::Binary(request(99, 100))).await.unwrap();
+        let notify = next_binary(&mut raw).await;
+        assert_eq!(notify.serialized_len(), 100);
+        let reply = next_binary(&mut raw).await;
+        assert_eq!(reply.header.id, 99);
+    }
+    pub fn run() -> Result<String, String> {
+        let rt = tokio::runtime::Builder::new_multi_thread().worker_threads(2).enable_all().build().unwrap();
+        rt.block_on(scenario());
+        rt.shutdown_background();
+        Ok("notifications of 4096 bytes delivered, 4097 / 4098 / 12288 bytes and an oversized broadcast dropped and reported, every reply arrived".into())
+    }
 }
